@@ -341,6 +341,14 @@ def _script(r, client, world, counter):
                 add("sc.translate", {"d": d})
             else:
                 add("sc.solve", {"d": d, "kind": r.choice(["dc", "cx"]), "w": r.choice(G.W_VALUES)})
+        elif g == "stale_load" and r.random() < 0.4:
+            # a damaged file is loaded (fails part-way), then ordinary cycles must still be right
+            t = add("sc.serialize", {"d": d, "fmt": "json"})
+            add("sc.mangle", {"text": t, "path": "bad.json", "pos": r.random(),
+                              "how": r.choice(["drop_values", "bad_segments", "drop_name", "bad_circuit", "bad_params"])})
+            add("sc.load", {"path": "bad.json"})
+            t2 = add("sc.serialize", {"d": P(f"dr{r.randrange(nd)}"), "fmt": "json"})
+            add("sc.deserialize", {"text": t2, "fmt": "json"})
         elif g == "stale_load":
             cur = add("sc.load", {"path": path})
             if r.random() < 0.5:
